@@ -1038,7 +1038,9 @@ class Server:
         base_path = connection.user.base_path
         real_path = base_path / str(resolved_virtual_path.relative_to("/"))
         # replace with `is_relative_to` check after 3.9+ requirements lands
-        if not real_path.is_relative_to(base_path):
+        # ".." can come back when a part of virtual path is parsed again by
+        # non-posix `base_path` flavour (e.g. "..\\..\\x" for windows)
+        if not real_path.is_relative_to(base_path) or ".." in real_path.parts[len(base_path.parts) :]:
             real_path = base_path
             resolved_virtual_path = pathlib.PurePosixPath("/")
         return real_path, resolved_virtual_path
